@@ -1458,7 +1458,7 @@ def run(chk: core.Check):
                              "conv:reused-other-size", "conv:pp-qubits-swapped-away", "cqprobe", "cqprobe:array-before-used-var",
                              "cqprobe:converter-reused", "label-mixed",
                              "label-with-other-2q", "catmat", "cut:exhaustive", "cut:pp", "cut:heralded-after-pp", "place:checked",
-                             "place:two-qubit", "place:non-adjacent", "place:control-below-data", "swap-non-adjacent", "swap-with-postselection", "cyclic:True", "cyclic:False", "malformed"]
+                             "place:two-qubit", "place:non-adjacent", "place:control-below-data", "swap-non-adjacent", "swap-with-postselection", "conv-postselection-is-pair-conjunction", "cyclic:True", "cyclic:False", "malformed"]
     import perceval as pcvl
     pcvl.random_seed(chk.seed)
     pool = Pool(chk, chk.pick(8, 12))
@@ -1602,8 +1602,25 @@ def check_placement(chk, label, case, n, ops, ob, p, g, tol, rep):
     if rep["modes"] != want or not rep.get("layoutOk"):
         chk.fail("broken", "modes-model-mismatch", f"{label}: model modes {rep['modes']}, expected {want}", case)
         return
+    # the post-selection the converted processor carries is `pairPS` of the model (Lemmas/C20Whole.lean): a conjunction
+    # of conditions `[p, p+1] == 1` on qubit pairs - which is why it accepts every logical state
+    # (converter_postselection_accepts_logical)
+    def pair_conj(e):
+        if e is True:
+            return True
+        if "and" in e:
+            return all(pair_conj(x) for x in e["and"])
+        return ("c" in e and e.get("op") == "==" and e.get("k") == 1 and len(e["c"]) == 2
+                and sorted(e["c"])[1] == sorted(e["c"])[0] + 1 and sorted(e["c"])[0] in ob["qubits"])
+    try:
+        ps_ok = pair_conj(ps_json(ob["ps"]))
+    except Exception:
+        ps_ok = False
+    chk.branch("conv-postselection-is-pair-conjunction" if ps_ok else "conv-postselection-other-shape")
     bad = None
-    if lay_real != lay_model:
+    if not ps_ok:
+        bad = f"the post-selection {ob['ps']} is not a conjunction of conditions [p,p+1]==1 on the qubit pairs {ob['qubits']}"
+    elif lay_real != lay_model:
         bad = f"layout (modes, qubit modes, heralds) {lay_real}, model {lay_model}"
     else:
         u = placement_unitary(p, n, ops, rep["modes"])
